@@ -39,9 +39,9 @@ var (
 	c20RepBinops  = []string{",", "=", "||", "&&", "|", "&", "==", "<", "<<", "-", "/", "**"}
 	c20RepPreOps  = []string{"!", "-", "++"}
 	c20RepPostOps = []string{"--"}
-	c20TinyLeaves    = []string{"2", "x", "y"}
-	c20TwoLeaves     = []string{"2", "x"}
-	c20Contexts      = []string{"exp", "cmd", "let", "letq", "sub", "for", "forc"}
+	c20TinyLeaves = []string{"2", "x", "y"}
+	c20TwoLeaves  = []string{"2", "x"}
+	c20Contexts   = []string{"exp", "cmd", "let", "letq", "sub", "for", "forc"}
 
 	// literal sweep: every "0"+s, s of <= 3 characters of the first alphabet
 	// (octal, hex, invalid digits), and every B#D with B of the list and D of
